@@ -66,6 +66,18 @@ def step (s : St) (toks : List String) : St × String :=
     match s.pr with
     | none => (s, "nochain")
     | some p => (s, view p)
+  | "statuscrash" :: _ =>
+    match s.pr with
+    | none => (s, "nochain")
+    | some p =>
+      let k := argN toks "at" 1
+      let p' := commit p (argN toks "chg" 0 == 1)
+      let d := if statusAdvanced k then 1 else 0
+      -- the restarting node reads the persisted status (old or new) and the records of the height after it
+      let q := if statusAdvanced k then p' else p
+      let vals := if statusAdvanced k && !nextRecords k then "-" else showLoaded (loadVals q (q.H + 1)) toString
+      let params := if statusAdvanced k && !nextRecords k then "-" else showLoaded (loadParams q (q.H + 1)) (fun _ => "1")
+      ({ s with pr := some p' }, s!"status=+{d} writes={statusWrites p'.H} vals={vals} params={params}")
   | op :: _ =>
     if !s.chain then (s, "nochain")
     else
